@@ -219,17 +219,17 @@ Section Job.
   Proof.
     split; intros st Hst.
     - destruct (to_stmt_facts st Hst) as (i & j & Hi & Hj & E1 & E2 & G & NM & _).
-      exists (src_at s2 i), (dst_at s2 j). repeat split; auto; try (apply nth_In; auto).
-      + rewrite E1 in H. unfold ref_of in H. simpl in H. rewrite G in H. exact H.
-      + rewrite E1 in H. unfold ref_of in H. simpl in H. rewrite G in H. simpl in H.
-        unfold can_name_match in NM. destruct (f_isget (src_at s2 i) && f_isget (dst_at s2 j)); [discriminate|].
-        rewrite H in NM. destruct (f_isset (src_at s2 i)); auto. discriminate.
+      exists (src_at s2 i), (dst_at s2 j).
+      refine (conj (nth_In _ _ Hi) (conj (nth_In _ _ Hj) (conj E2 (conj E1 (conj G _))))).
+      intros H. rewrite E1 in H. unfold ref_of in H. simpl in H. rewrite G in H. simpl in H. split; auto.
+      unfold can_name_match in NM. destruct (f_isget (src_at s2 i) && f_isget (dst_at s2 j)); [discriminate|].
+      rewrite H in NM. destruct (f_isset (src_at s2 i)); [simpl in NM; discriminate|reflexivity].
     - destruct (from_stmt_facts st Hst) as (i & j & Hi & Hj & E1 & E2 & G & NM & _).
-      exists (src_at s2 i), (dst_at s2 j). repeat split; auto; try (apply nth_In; auto).
-      + rewrite E1 in H. unfold ref_of in H. simpl in H. rewrite G in H. exact H.
-      + rewrite E1 in H. unfold ref_of in H. simpl in H. rewrite G in H. simpl in H.
-        unfold can_name_match in NM. destruct (f_isget (src_at s2 i) && f_isget (dst_at s2 j)); [discriminate|].
-        rewrite H in NM. destruct (f_isset (dst_at s2 j)); auto. rewrite andb_true_r in NM. discriminate.
+      exists (src_at s2 i), (dst_at s2 j).
+      refine (conj (nth_In _ _ Hi) (conj (nth_In _ _ Hj) (conj E2 (conj E1 (conj G _))))).
+      intros H. rewrite E1 in H. unfold ref_of in H. simpl in H. rewrite G in H. simpl in H. split; auto.
+      unfold can_name_match in NM. destruct (f_isget (src_at s2 i) && f_isget (dst_at s2 j)); [discriminate|].
+      rewrite H in NM. destruct (f_isset (dst_at s2 j)); [simpl in NM; discriminate|reflexivity].
   Qed.
 
   Hypothesis TW : tables_wf jb = true.
@@ -287,15 +287,15 @@ Section Job.
     destruct (tables ps pd Ps Pd) as (Td & Ts).
     destruct (analyse_write_once _ _ _ An AG) as (N1 & N2).
     split.
-    - eapply nodup_write_paths; eauto. intros st Hst. eapply to_stmt_table; eauto.
-    - eapply nodup_write_paths; eauto. intros st Hst. eapply from_stmt_table; eauto.
+    - apply (nodup_write_paths (j_dst_acc jb) _ _ N1 Td). intros st Hst. eapply to_stmt_table; eauto.
+    - apply (nodup_write_paths (j_src_acc jb) _ _ N2 Ts). intros st Hst. eapply from_stmt_table; eauto.
   Qed.
 
   (* ... and none of them is the storage a constructor parameter received a mapped value for *)
   Theorem ctor_paths_disjoint :
-    (forall st p, In st (pl_stmts (a_to a)) -> In p (pr_dctor pr) -> f_target p <> None ->
+    (forall st p, In st (pl_stmts (a_to a)) -> In p (pr_dctor pr) -> f_target p <> None -> f_backing p <> "" ->
                   write_path (j_dst_acc jb) (st_dst st) <> Some (f_path p))
-    /\ (forall st p, In st (pl_stmts (a_from a)) -> In p (pr_sctor pr) -> f_target p <> None ->
+    /\ (forall st p, In st (pl_stmts (a_from a)) -> In p (pr_sctor pr) -> f_target p <> None -> f_backing p <> "" ->
                      write_path (j_src_acc jb) (st_dst st) <> Some (f_path p)).
   Proof.
     destruct (prepare_sides _ _ Prep) as (ps & pd & Ps & Pd & Es & Ed).
@@ -303,27 +303,29 @@ Section Job.
     destruct (analyse_ctor_disjoint _ _ _ _ An Prep AG FN) as (D1 & D2 & D3 & D4).
     destruct (prepare_ctor _ _ Prep FN) as (PD & LD & _).
     destruct (prepare_ctor_src _ _ Prep FN) as (LS & PS).
-    split; intros st p Hst Ip Tp E.
+    split; intros st p Hst Ip Tp Bk E.
     - destruct (to_stmt_table st ps pd Ps Pd Ed Hst) as (q & W & Iq). rewrite W in E. inversion E; subst q.
       destruct (In_nth _ _ fdummy Ip) as (k & Hk & Ek).
       destruct (PD k Hk) as (CE & _). unfold rd in CE. rewrite Ek in CE.
       rewrite (nth_map_dflt ctor_field (j_dst_ctor jb) cdummy fdummy k) in CE by (rewrite <- LD; exact Hk).
-      destruct CE as (Cn & _ & _ & _ & _ & Cp).
+      destruct CE as (Cn & _ & _ & _ & Cb & Cp).
       assert (Ic : In (f_name p, f_path p) (writables (exported_of (p_fields pd)) (j_dst_acc jb) (j_dst_ctor jb))).
       { unfold writables. apply in_or_app. right. apply in_or_app. right. apply in_map_iff.
-        exists (nth k (j_dst_ctor jb) cdummy). split; [|apply nth_In; rewrite <- LD; exact Hk].
-        rewrite Cn. f_equal. rewrite Cp. reflexivity. }
+        exists (nth k (j_dst_ctor jb) cdummy). split; [rewrite Cn; f_equal; rewrite Cp; reflexivity|].
+        apply filter_In. split; [apply nth_In; rewrite <- LD; exact Hk|].
+        simpl in Cb. destruct (String.eqb_spec (cp_field (nth k (j_dst_ctor jb) cdummy)) ""); auto. congruence. }
       pose proof (path_det_spec _ _ _ _ _ Td Iq Ic eq_refl) as En.
       pose proof (D1 st Hst) as X. pose proof (D3 p Ip Tp) as Y. rewrite En in X. congruence.
     - destruct (from_stmt_table st ps pd Ps Pd Es Hst) as (q & W & Iq). rewrite W in E. inversion E; subst q.
       destruct (In_nth _ _ fdummy Ip) as (k & Hk & Ek).
       destruct (PS k Hk) as (CE & _). unfold rd in CE. rewrite Ek in CE.
       rewrite (nth_map_dflt ctor_field (j_src_ctor jb) cdummy fdummy k) in CE by (rewrite <- LS; exact Hk).
-      destruct CE as (Cn & _ & _ & _ & _ & Cp).
+      destruct CE as (Cn & _ & _ & _ & Cb & Cp).
       assert (Ic : In (f_name p, f_path p) (writables (exported_of (p_fields ps)) (j_src_acc jb) (j_src_ctor jb))).
       { unfold writables. apply in_or_app. right. apply in_or_app. right. apply in_map_iff.
-        exists (nth k (j_src_ctor jb) cdummy). split; [|apply nth_In; rewrite <- LS; exact Hk].
-        rewrite Cn. f_equal. rewrite Cp. reflexivity. }
+        exists (nth k (j_src_ctor jb) cdummy). split; [rewrite Cn; f_equal; rewrite Cp; reflexivity|].
+        apply filter_In. split; [apply nth_In; rewrite <- LS; exact Hk|].
+        simpl in Cb. destruct (String.eqb_spec (cp_field (nth k (j_src_ctor jb) cdummy)) ""); auto. congruence. }
       pose proof (path_det_spec _ _ _ _ _ Ts Iq Ic eq_refl) as En.
       pose proof (D2 st Hst) as X. pose proof (D4 p Ip Tp) as Y. rewrite En in X. congruence.
   Qed.
